@@ -30,7 +30,7 @@ pub fn def() -> PropDef {
     PropDef {
         id: "C10",
         level: "fault_enumeration",
-        rule: "(A) the real acceptor (BobState::run over an in-memory duplex stream, backed by a real store actor) against a scripted initiator that owns a real replica and at every step chooses from {correct next frame, replay previous frame, Init again, an Init whose message already carries a signed entry, Sync now, Abort(3 reasons), garbage frame with valid length, well-formed frame whose range bounds are record identifiers cut to 40 / 41 bytes, oversized length prefix, cut inside the next correct frame, close}: every script of <= d steps x accept callback {Allow, Reject(NotFound|AlreadySyncing|InternalServerError)}, and — wherever the acceptor has to end the session on its own (after a decline or after a frame that is an error for it) — the same script against a peer that keeps its stream open afterwards; (B) the real initiator (run_alice) against a scripted acceptor with the mirrored menu; (C) real initiator against real acceptor through a frame relay that injects one local fault {close the document, disable sync, shut the store actor down} on either side before its k-th incoming frame (and before the first outgoing one), for every k; oracle: both ends return Ok or Err within the deadline, no panic, the store actor of the side under test still answers after the session, BobState::into_outcome() callable after every outcome and the document of an accepted session still known (namespace()) so that its end can be reported, a declined request leaves the acceptor's store unchanged, a side whose document was closed / taken out of sync / whose actor was stopped before a frame it has to process reports an error, counters mirror when both ends return Ok; non-trivial = scenarios with at least one deviation from the correct protocol or one injected fault",
+        rule: "(A) the real acceptor (BobState::run over an in-memory duplex stream, backed by a real store actor) against a scripted initiator that owns a real replica and at every step chooses from {correct next frame, replay previous frame, Init again, an Init whose message already carries a signed entry, Sync now, Abort(3 reasons), garbage frame with valid length, well-formed frame whose range bounds are record identifiers cut to 40 / 41 bytes, oversized length prefix, cut inside the next correct frame, close}: every script of <= d steps x accept callback {Allow, Reject(NotFound|AlreadySyncing|InternalServerError)}, and — wherever the acceptor has to end the session on its own (after a decline or after a frame that is an error for it) — the same script against a peer that keeps its stream open afterwards; (B) the real initiator (run_alice) against a scripted acceptor with the mirrored menu; (C) real initiator against real acceptor through a frame relay that injects one local fault {close the document, disable sync, shut the store actor down} on either side before its k-th incoming frame (and before the first outgoing one), for every k; oracle: both ends return Ok or Err within the deadline, no panic, the store actor of the side under test still answers after the session, BobState::into_outcome() callable after every outcome and the document of an accepted session still known (namespace()) so that its end can be reported, a declined request leaves the acceptor's store unchanged, a side whose document was closed / taken out of sync / whose actor was stopped before a frame it has to process reports an error, counters mirror when both ends return Ok; (F) the store actor is made to wait, a stop request is queued, then the session (initiator or acceptor under test) issues its first store request behind it and the actor is released: the session side returns; big sets (450 entries per side) run through (C) over pipes smaller than a frame and through (D); non-trivial = scenarios with at least one deviation from the correct protocol or one injected fault",
         assumptions: &[
             "deadlines are hang detectors only: a scenario that exceeds 5 s is re-run once with 50 s and must hang again to count",
             "the transport is an in-memory duplex stream; QUIC stream semantics (finish/stopped) are outside",
@@ -326,6 +326,82 @@ struct Observed {
 }
 
 const DEADLINE: Duration = Duration::from_secs(5);
+
+/// (F) the store actor is stopped while a request of the session is already queued behind the
+/// stop request. The actor is first made to wait (an insert whose event does not fit into a
+/// subscriber's one-slot channel), then `shutdown` is queued, then the session starts — its first
+/// store request (`sync_initial_message` for the initiator, `sync_process_message` for the
+/// acceptor, after its accept callback said yes) queues up behind the stop —, then the
+/// subscriber is released. The session side must return (an error), not wait forever.
+async fn scenario_stop_queued(initiator_under_test: bool, deadline: Duration) -> Observed {
+    let mut obs = Observed::default();
+    let handle = spawn_actor(&side_entries(if initiator_under_test { 0 } else { 1 }, 0));
+    let (tx, rx) = async_channel::bounded(1);
+    if handle.subscribe(ns_id(0), tx).await.is_err() {
+        obs.panic = Some("MACHINERY: subscribe failed".into());
+        return obs;
+    }
+    let e1 = Spec::new(0, 1, b"stall1", 3, Val::X).signed();
+    let e2 = Spec::new(0, 1, b"stall2", 3, Val::X).signed();
+    let _ = handle.insert_remote(ns_id(0), e1, [7u8; 32], iroh_docs::ContentStatus::Missing).await;
+    let h2 = handle.clone();
+    let blocked = tokio::task::spawn_local(async move { h2.insert_remote(ns_id(0), e2, [7u8; 32], iroh_docs::ContentStatus::Missing).await.is_ok() });
+    tokio::time::sleep(Duration::from_millis(30)).await;
+    let h3 = handle.clone();
+    let stopper = tokio::task::spawn_local(async move {
+        let _ = h3.shutdown().await;
+    });
+    tokio::time::sleep(Duration::from_millis(30)).await;
+    let (a_end, b_end) = tokio::io::duplex(1 << 20);
+    let (mut a_r, mut a_w) = tokio::io::split(a_end);
+    let (b_r, b_w) = tokio::io::split(b_end);
+    let h4 = handle.clone();
+    let sut = tokio::task::spawn_local(async move {
+        if initiator_under_test {
+            let res = verif_codec::run_alice(&mut a_w, &mut a_r, &h4, ns_id(0), peer_key(2)).await;
+            let _ = a_w.shutdown().await;
+            drop((b_r, b_w));
+            (match res {
+                Ok(_) => "Ok".to_string(),
+                Err(e) => format!("Err({})", short(&format!("{e:?}"))),
+            }, Ok(()))
+        } else {
+            // the peer's request is already waiting in the pipe
+            let mut peer = Scripted::new(&side_entries(0, 0), true);
+            if let Some(f) = peer.next_correct_frame() {
+                let _ = a_w.write_all(&f).await;
+            }
+            let mut state = BobState::new(peer_key(1));
+            let res = state.run(b_w, b_r, h4, |_ns, _peer| async { AcceptOutcome::Allow }).await;
+            let out = std::panic::catch_unwind(std::panic::AssertUnwindSafe(|| state.into_outcome())).map(|_| ()).map_err(|p| crate::util::panic_message(&p));
+            drop((a_r, a_w));
+            (match res {
+                Ok(_) => "Ok".to_string(),
+                Err(e) => format!("Err({})", short(&format!("{e:?}"))),
+            }, out)
+        }
+    });
+    // let the session's request reach the queue, then release the actor
+    tokio::time::sleep(Duration::from_millis(80)).await;
+    drop(rx);
+    match tokio::time::timeout(deadline, sut).await {
+        Err(_) => obs.hang = true,
+        Ok(Ok((res, out))) => {
+            obs.sut_result = res;
+            match out {
+                Ok(()) => obs.into_outcome = "ok".into(),
+                Err(p) => {
+                    obs.into_outcome = "panic".into();
+                    obs.panic = Some(format!("into_outcome: {p}"));
+                }
+            }
+        }
+        Ok(Err(e)) => obs.panic = Some(format!("task join: {e}")),
+    }
+    blocked.abort();
+    stopper.abort();
+    obs
+}
 
 /// (A) real acceptor vs scripted initiator.
 async fn scenario_bob(script: &[Choice], accept: Accept, variant: u8, hold: bool, deadline: Duration) -> Observed {
@@ -1283,6 +1359,10 @@ enum Case {
         #[serde(default)]
         must_fail: bool,
     },
+    /// (F) the actor is stopped while a request of the session is queued behind the stop
+    StopQueued {
+        initiator_under_test: bool,
+    },
     /// (D) connect_and_sync against handle_connection over real QUIC on loopback
     Transport {
         variant: u8,
@@ -1305,6 +1385,7 @@ fn run_case(case: &Case) -> (Observed, String) {
                 Case::Bob { script, accept, variant, hold } => scenario_bob(script, *accept, *variant, *hold, deadline).await,
                 Case::Alice { script, variant, hold } => scenario_alice(script, *variant, *hold, deadline).await,
                 Case::Fault { variant, side, fault, .. } => scenario_fault(*variant, *side, *fault, deadline).await.0,
+                Case::StopQueued { initiator_under_test } => scenario_stop_queued(*initiator_under_test, deadline).await,
                 Case::Transport { variant, accept, fault } => scenario_transport(*variant, *accept, *fault, deadline * 2).await,
                 Case::Hostile { acceptor_under_test, script, variant } => scenario_hostile(*acceptor_under_test, *script, *variant, deadline * 2).await,
             }
@@ -1463,6 +1544,14 @@ fn run(ctx: &Ctx, report: &mut Report) {
                     }
                 }
             }
+        }
+    }
+    // (F)
+    for initiator_under_test in [true, false] {
+        ordinal += 1;
+        if ctx.mine(ordinal) {
+            report.count("stop_queued_ahead_of_a_session_request", 1);
+            one(report, Case::StopQueued { initiator_under_test }, true, ordinal);
         }
     }
     // (D)
